@@ -248,30 +248,4 @@ def judge_with_agreement(pre, op, out, ctx):
 
 
 def shards(tier, seed):
-    out = []
-    depth = 9 if tier == 'thorough' else 3
-    for client in (True, False):
-        cat = F.get_catalogue(client, depth)
-        entries = cat[0]
-        sel = F.select_entries(entries, tier, seed, quick_depth=2, quick_sample=10,
-                               thorough_cap=10 ** 6)
-        out += F.entry_shards('one', client, sel, F.alphabet(client), judge_with_agreement,
-                              cat=cat, build_ops=F.build_alphabet(client))
-        # push slice: streams 1 + 2
-        pentries, pclosed, pkeys = F.get_catalogue(client, 3 if tier == 'thorough' else 2, push=True)
-        pentries = [e for e in pentries if any(o[0] in ('push', 'PP') for o in e[0])]
-        psel = F.select_entries(pentries, tier, seed, quick_depth=2, quick_sample=10)
-        out += F.entry_shards('push', client, psel, F.alphabet(client, sids=(1, 2), push=True),
-                              judge_with_agreement)
-        # two client-initiated streams (1, 3) + frames/calls on the idle ids 2 and 5
-        tentries, _c, _k = F.get_catalogue(client, 2 if tier == 'quick' else 3, two=True)
-        tsel = F.select_entries(tentries, tier, seed, quick_depth=2, quick_sample=6)
-        out += F.entry_shards('two', client, tsel, F.alphabet(client, sids=(1, 2, 3, 5)),
-                              judge_with_agreement)
-        # upgraded connections
-        uentries, uclosed, ukeys = F.get_catalogue(client, 2 if tier == 'quick' else 3,
-                                                   upgrade=True)
-        usel = F.select_entries(uentries, tier, seed, quick_depth=1, quick_sample=6)
-        out += F.entry_shards('upgrade', client, usel, F.alphabet(client),
-                              judge_with_agreement, upgrade=True)
-    return out
+    return F.standard_shards(tier, seed, judge_with_agreement)
